@@ -269,6 +269,9 @@ pub fn run(ctx: &Ctx) -> Report {
 					texts.push(String::from_utf8(t).unwrap().replace('P', &pad).into_bytes());
 				}
 			}
+			// block-boundary and otherwise special scalars in every component position (directly
+			// before '?', '#', '/', ':' and '@')
+			texts.extend(domains::special_scalar_texts());
 			// offsets that do not fit 16 bits, one component at a time
 			let huge = "z".repeat(70_000);
 			for t in [format!("s://h/p?{huge}#f"), format!("s://h/{huge}/x?q#f"), format!("s://u@{huge}:1/p?q#f"), format!("s://h/p?q#{huge}"), format!("//{huge}@h/p"), format!("{huge}/x?q")] {
@@ -442,7 +445,7 @@ pub fn run_c03(ctx: &Ctx) -> Report {
 		// IPv6 groups and %XX triplets, every sub-delimiter), and many delimiters in one authority
 		for t in [
 			"h:9", "h:0", "h:1234567890", "h:0987654321", "u@h:9", "[::1]:9", "[::9]:90", "255.249.199.9", "9.8.7.6:5", "[9:a:b:c:d:e:f:0]", "[A:B:C:D:E:F:0:9]:9",
-			"[::ffff:9.8.7.6]", "[v9.a]", "[vF.9:9]", "[v1.x:y]", "[v1.x:y]:80", "u@[v1.x:y]:80", "[vA.-._~!$&'()*+,;=:z]", "[v1.fe80::a]:8080", "%0F%9A%af%Fa%bC", "%99@%99:99", "!$&'()*+,;=@!$&'()*+,;=:9", "u:p:q:r:s:t:u:v:w@[1:2:3:4:5:6:7:8]:80", "a.b.c.d.e.f.g.h.i.j.k",
+			"[::ffff:9.8.7.6]", "[v9.a]", "[vF.9:9]", "[v1.x:y]", "[v1.x:y]:80", "u@[v1.x:y]:80", "[vA.-._~!$&'()*+,;=:z]", "[v1.fe80::a]:8080", "u@[v1.aaaaaaaaaaaaaaaaaaaaaaaaaaaaaaaaaaaaaaaaaaaaaaaaaaaaaaaaaaaaaaaaaaaa:x:y]:80", "[v1.aaaaaaaaaaaaaaaaaaaaaaaaaaaaaaaaaaaaaaaaaaaaaaaaaaaaaaaaaaaaaaaaaaaa:x:y]", "%0F%9A%af%Fa%bC", "%99@%99:99", "!$&'()*+,;=@!$&'()*+,;=:9", "u:p:q:r:s:t:u:v:w@[1:2:3:4:5:6:7:8]:80", "a.b.c.d.e.f.g.h.i.j.k",
 			"0", "9", "09", "a9", "9a", "-._~", "%2D%2E%5F%7E",
 		] {
 			let t = domains::b(t);
